@@ -96,6 +96,12 @@ def sweep(pid, mod, verbose=True):
             if code == 0:
                 res["benign_silent"] += 1
                 res["details"].append({"benign": name, "result": "silent"})
+            elif code == 2:
+                # "cannot decide this spelling": not a verdict and not silence; counted apart (the known ones are listed in benign/KNOWN_EXIT2.md)
+                res.setdefault("benign_undecided", []).append(name)
+                res["details"].append({"benign": name, "result": "not decided (exit 2)"})
+                if verbose:
+                    print(f"UNDECIDED-VARIANT property={pid} benign variant `{name}`: exit 2 (the rules cannot classify this spelling; no verdict)")
             else:
                 res["noisy"].append(name)
                 # quoted lines of the variant run are defused so that a self-test message can never be read as a verdict on /repo
@@ -106,7 +112,7 @@ def sweep(pid, mod, verbose=True):
                     print(f"NOISY-RULE property={pid} benign variant `{name}`: exit {code} {last[:2]}")
     if verbose:
         print(f"liveness {pid}: mutants {res['mutants_detected']}/{res['mutants_generated']} detected "
-              f"({res['mutants_stale']} stale); benign {res['benign_silent']}/{res['benign_variants'] - res['benign_stale']} silent ({res['benign_stale']} stale: no longer apply to the repaired tree)")
+              f"({res['mutants_stale']} stale); benign {res['benign_silent']}/{res['benign_variants'] - res['benign_stale']} silent, {len(res.get('benign_undecided', []))} not decided ({res['benign_stale']} stale: no longer apply to the repaired tree)")
     return res
 
 
